@@ -1927,6 +1927,9 @@ class Engine(object):
                 raise PyRaise(PExc(TypeError, tag='compare'))
         # symbolic
         if isinstance(a, (PList, SSeq, PGen)) or isinstance(b, (PList, SSeq, PGen)):
+            other = b if isinstance(a, (PList, SSeq, PGen)) else a
+            if other is None or isinstance(other, (str, int, PObj, SOpaque)) and k in ('Eq', 'NotEq'):
+                return k == 'NotEq'           # a list never equals None, a string, a number or an object
             la = self.list_contents(a) if not isinstance(a, SSeq) else a
             lb = self.list_contents(b) if not isinstance(b, SSeq) else b
             if isinstance(la, list) and isinstance(lb, list):
@@ -2031,7 +2034,8 @@ class Engine(object):
             container = list(container.keys())
         if isinstance(container, (tuple, list, set, frozenset)):
             items = list(container)
-            if not is_sym(x) and not any(is_sym(i) for i in items):
+            modelled = (PList, PDict, PGen, PSet)
+            if not is_sym(x) and not any(is_sym(i) for i in items) and not isinstance(x, modelled) and not any(isinstance(i, modelled) for i in items):
                 return x in container
             parts = []
             for i in items:
@@ -2910,6 +2914,12 @@ class Engine(object):
             return c if fn is tuple else PList(c)     # symbolic: immutable SSeq stands for the tuple
         if fn is next:
             return self.builtin_next(args[0], node)
+        if fn is iter and len(args) == 1:
+            # a fresh one-shot iterator over the contents (consumed by next() / for); iter(it) of an iterator is the iterator
+            if isinstance(args[0], PGen):
+                return args[0]
+            c = self.iter_contents(args[0])
+            return PGen(list(c) if isinstance(c, list) else c)
         if fn is type and len(args) == 1:
             v = args[0]
             if isinstance(v, PExc):
@@ -3074,10 +3084,22 @@ class Engine(object):
             return self.call(g.fields['__next__'], [], {}, node)
         if not isinstance(g, PGen):
             raise Unsupported('next() of %r' % (g,))
+        consume = (self.c.hints or {}).get('next_consumes')
         if isinstance(g.items, list):
             if not g.items:
                 raise PyRaise(PExc(StopIteration))
-            return g.items[0]
+            head = g.items[0]
+            if consume:
+                g.items = g.items[1:]
+            return head
+        if consume and isinstance(g.items, SSeq):
+            # hint next_consumes: next() on an exhausted iterator is a path (StopIteration), not a safety obligation, and the
+            # iterator loses its head (a later `for` continues behind it)
+            t = g.items.t
+            if self.decide(z3.Length(t) == 0):
+                raise PyRaise(PExc(StopIteration))
+            g.items = SSeq(z3.Extract(t, z3.IntVal(1), z3.Length(t) - 1), g.items.et)
+            return g.items.et.wrap(t[0])
         self.oblige('%s.next_nonempty@%s' % (self.c.funcname, self.rel(node)),
                     z3.Length(g.items.t) > 0, 'safety')
         return g.items.et.wrap(g.items.t[0])
